@@ -575,6 +575,14 @@ func (w *Worker) runPath(j job) {
 	p.models = []*cachedModel{{m: Model{}, memo: map[int]*cval{}, valid: true}}
 	w.cur = p
 	w.interp.p = p
+	w.interp.sched = nil
+	if c.H.Sched {
+		mp := c.H.MaxPreempt
+		if mp == 0 {
+			mp = 2
+		}
+		w.interp.sched = newScheduler(w.interp, mp)
+	}
 	if w.inc != nil {
 		w.inc.Begin()
 	}
